@@ -17,7 +17,7 @@
    written back with [mpaste] — all windows of solve.c are disjoint row ranges of B, so reading at
    the time of use is exactly the aliasing semantics of the C code.
 
-   Parameters of the generic section: the PLUQ routine (_mzd_pluq called on mzp_init permutations,
+   Arguments of the generic section: the PLUQ routine (_mzd_pluq called on mzp_init permutations,
    i.e. P0 = Q0 = identity), the two left TRSM routines.  mzd_addmul(C, A, B, cutoff) is
    [addmul_spec cutoff C A B] = C + A*B (Alg/TRSM.v; property C01).  The C argument [cutoff] (Strassen
    cutoff) is only handed on to these routines.
